@@ -887,12 +887,13 @@ class Explorer:
             return SYM(self.cap(("deref", v[1])))
         return v
 
-    def havoc_ref(self, st, v, tag, site, res=None):
+    def havoc_ref(self, st, v, tag, site, res=None, argterms=()):
         if v[0] == "ref":
             root, path = v[1], v[2]
             old = self.read_loc(st, root, path)
-            oldc = self.intern(old) if term_depth(old) > 3 else old
-            new = SYM(("mut", tag, site, oldc, res))
+            oldc = self.intern(old) if term_depth(old) > 4 else old
+            ac = tuple(self.intern(a) if isinstance(a, tuple) and term_depth(a) > 4 else a for a in argterms)
+            new = SYM(("mut", tag, site, oldc, res, ac))
             if root[0] != "L":
                 st.effects.append(("write", root, path, new, site))
             self.write_loc(st, root, path, new)
@@ -912,7 +913,8 @@ class Explorer:
         # &mut arguments are havocked (after computing the result term from the pre-state)
         mut_idx = self.mut_args(path, info, args)
         for i in mut_idx:
-            self.havoc_ref(st, args[i], (path, i), site, res[1] if res[0] == "sym" else None)
+            self.havoc_ref(st, args[i], (path, i), site, res[1] if res[0] == "sym" else None,
+                           tuple(a for j, a in enumerate(argterms) if j != i))
         self.write_place(st, fr, dest, res, site)
 
     def mut_args(self, path, info, args):
